@@ -86,7 +86,7 @@ func (x *Exec) havocUnknown(st *State, what string) {
 		}
 	}
 	alloc := x.alloc(st)
-	st.havocExcept(func(n string) bool { return strings.HasPrefix(n, "ghost:") })
+	st.havocExcept(func(n string) bool { return n != "$alloc" && x.keepOnHavoc(n) })
 	x.assume(st, mkLe(alloc, x.alloc(st)))
 	for _, ax := range x.env.con.Axioms {
 		ce := &cenv{x: x, st: st, old: st, vars: map[string]cvar{}}
@@ -231,8 +231,28 @@ func (x *Exec) bindResult(vars map[string]cvar, fn *ssa.Function, rv Val) {
 	}
 }
 
+// callSiteAsserts: assertions written in the caller's contract for calls of key, evaluated in
+// the caller's frame (its locals are visible) immediately before the call.
+func (x *Exec) callSiteAsserts(fr *Frame, st *State, key string, in ssa.Instruction) {
+	if fr == nil || x.dry > 0 {
+		return
+	}
+	root := fr
+	for root.parent != nil && rootFn(root.fn) != root.fn {
+		root = root.parent
+	}
+	ccon := x.env.con.Funcs[x.env.keyOf(rootFn(fr.fn))]
+	if ccon == nil {
+		return
+	}
+	for _, cl := range ccon.CallSites[key] {
+		x.assertClause(st, "callsite", "before "+key+": ", x.clauseEnv(fr, st, nil), cl, in.Pos())
+	}
+}
+
 func (x *Exec) applyContract(fr *Frame, st *State, con *FuncContract, fn *ssa.Function, key string, args []Val, in ssa.Instruction, rt types.Type) Val {
 	pos := in.Pos()
+	x.callSiteAsserts(fr, st, key, in)
 	vars := x.bindParams(fn, args)
 	// implicit: receiver non-nil
 	if fn.Signature.Recv() != nil && len(args) > 0 {
